@@ -159,6 +159,11 @@ impl<'a> GraphemeCluster<'a> {
     }
 }
 
+#[cfg(grex_verif)]
+pub(crate) fn verif_classify(c: char) -> (bool, bool, bool) {
+    (is_digit(c), is_word(c), is_space(c))
+}
+
 fn is_digit(c: char) -> bool {
     lazy_static! {
         static ref VALID_NUMERIC_CHARS: Vec<CharRange> = convert_chars_to_range(DECIMAL_NUMBER);
